@@ -78,7 +78,7 @@ func errPolarity(fn *ssa.Function) []ErrMisuse {
 		// use-before-check: a method is called (or deferred) on a companion result - possibly
 		// through an interface conversion or type assertion - at a point from which the error
 		// test is still ahead: on failure the companion is nil or a typed nil
-		if len(tuples) > 0 && len(nilSucc.Preds) == 1 {
+		if len(tuples) > 0 {
 			derived := map[ssa.Value]bool{}
 			var grow func(v ssa.Value, d int)
 			grow = func(v ssa.Value, d int) {
@@ -107,12 +107,18 @@ func errPolarity(fn *ssa.Function) []ErrMisuse {
 					}
 				}
 			}
+			singlePred := len(nilSucc.Preds) == 1
 			for _, blk := range fn.Blocks {
-				if nilSucc.Dominates(blk) || !reachableFrom(blk, nil)[b] && blk != b {
+				if singlePred && nilSucc.Dominates(blk) || !reachableFrom(blk, nil)[b] && blk != b {
 					continue
 				}
 				for _, in := range blk.Instrs {
 					if blk == b && !domInstr(in, i) {
+						continue
+					}
+					// when the success edge joins other paths, only a use that certainly
+					// precedes the test (dominates it) is reported
+					if !singlePred && !domInstr(in, i) {
 						continue
 					}
 					c, isCall := in.(ssa.CallInstruction)
